@@ -25,7 +25,7 @@ Deliverables, all inside %(wt)s/_seed/ :
   meta.json   -- {"property": "%(pid)s", "summary": "...", "needs_to_manifest": "...", "files_changed": [...], "tests_run": "...", "demo_result_with": "...", "demo_result_without": "..."}
 Check that the existing tests still pass with your change: run at least the test files related to what you touched, e.g.
   cd %(wt)s && /venv/bin/python -m pytest -q -p no:cacheprovider --timeout=900 -x opacus/tests/<relevant files>
-(the full suite is `pytest -q -p no:cacheprovider --timeout=900 opacus benchmarks`, about 15 minutes; run it if you can afford it, and if a test fails pick another change).
+(do NOT run the full suite -- it takes hours on this loaded machine; the relevant files are enough, the full suite will be run separately; if a relevant test fails pick another change).
 Leave the change APPLIED in the worktree when you finish, and reply with a 5-line summary (what you changed, what it needs to manifest, demo results, tests run).
 
 The property:
